@@ -250,6 +250,7 @@ func checkCase(c Case) (out evid.Outcome) {
 	if c.Outer && c.At != "use" {
 		f.Use(flamego.Renderer(flamego.RenderOptions{Charset: "KOI8-R", JSONIndent: "\t\t\t", XMLIndent: "        "}))
 	}
+	resumeRan := false
 	switch c.At {
 	case "use":
 		if c.Resume {
@@ -261,7 +262,10 @@ func checkCase(c Case) (out evid.Outcome) {
 		f.Use(renderer)
 		f.Get("/resume",
 			func(ctx flamego.Context) { _, _ = ctx.ResponseWriter().Write([]byte("first;")) },
-			func(r flamego.Render) { r.PlainText(202, "second") })
+			func(r flamego.Render) {
+				resumeRan = true
+				r.PlainText(202, "second")
+			})
 		f.Any("/r", hs...)
 		f.Get("/inner", innerH)
 		// the not-found chain runs after the application middleware as well
@@ -299,10 +303,17 @@ func checkCase(c Case) (out evid.Outcome) {
 				defer func() { escaped = recover() }()
 				f.ServeHTTP(rs, rt.NewRequest("GET", "/resume", nil))
 			}()
-			if escaped != nil || string(rs.Body) != "first;second" {
-				return evid.Fail("render-unavailable", "a handler that runs after the Renderer middleware - started by a second Next() of a middleware in front, after an earlier handler had written - could not render: body %q (want \"first;second\") panic %v; %s", rs.Body, escaped, js(c))
+			// (whether the second Next() starts that handler is C03's business, and
+			// what a render call adds to a response that has begun is not stated:
+			// only that the Render it is given can be used)
+			if escaped != nil {
+				return evid.Fail("render-unavailable", "a handler that runs after the Renderer middleware - started by a second Next() of a middleware in front, after an earlier handler had written - could not use its Render: panic %v (body so far %q); %s", escaped, rs.Body, js(c))
 			}
-			out.Classes = append(out.Classes, "chain-resumed-by-second-next")
+			if resumeRan {
+				out.Classes = append(out.Classes, "chain-resumed-by-second-next")
+			} else {
+				out.Classes = append(out.Classes, "resume-not-started")
+			}
 		}
 	}
 	spy := rt.NewSpy()
